@@ -49,14 +49,17 @@ def gen_case(rng):
     if r < 0.12:
         # a file that begins with a run of empty lines (an export with a blank header block): 20-30 of them before the first password
         case['junk'] = [[0, 'nocount', '\x00', '']] * rng.randint(20, 30) + case['junk']
-    elif r < 0.18:
+    elif r < 0.16:
+        # a long block of empty lines in the middle of the file (a concatenation of exports, a table with an empty column): a thousand and more in a row
+        case['junk'] = case['junk'] + [[rnd_pos(rng, len(case['items'])), 'nocount', '\x00', '']] * rng.choice([1000, 1500, 3000])
+    elif r < 0.22:
         # passwords that look like digests (people do use an MD5 as a password; lists of "uncrackable" plains are full of them): every line of the plain
         # rendering is 32 / 40 / 64 hex digits
         hx = lambda n: ''.join(rng.choice('0123456789abcdef') for _ in range(n))
         case['items'] = [[rng.choice([hx(32), hx(32).upper(), hx(40), hx(64)]), rng.choice([1, 1, 2, 3])] for _ in range(rng.randint(3, 8))]
         case['junk'] = [[rnd_pos(rng, len(case['items'])), 'nocount', '\x00', '']] * rng.randint(0, 2)          # nothing but the digests and, perhaps, an empty line
     # --multiword: a plain pre-training word list, the same file for every rendering; the list holds a few alpha runs that are split only because of it
-    if rng.random() < 0.4 and not 0.12 <= r < 0.18:
+    if rng.random() < 0.4 and not 0.16 <= r < 0.22:
         words = rng.sample(MW_WORDS, rng.randint(2, 5))
         for _ in range(rng.randint(1, 3)):
             a, b = rng.sample(words, 2)
